@@ -1,2 +1,64 @@
-// verification hooks (see /verif/DESIGN.md section 10); compiled only with --features verif-hooks
+// Verification hooks for src/lfu/tinylfu.rs (child module: sees private fields and the private sketch/bloom modules)
 #![allow(missing_docs, dead_code, unused_imports)]
+use super::*;
+use crate::lfu::tinylfu::sketch::CountMinRow;
+use alloc::vec::Vec;
+
+pub const EST_COUNTERS: usize = 8;
+
+/// abstract view of the estimator: window counter, sample size, the 4 x width counters, doorkeeper word 0
+#[derive(Clone, Copy, PartialEq, Eq, Debug)]
+pub struct EstAbs {
+    pub w: usize,
+    pub samples: usize,
+    pub width: usize,
+    pub c: [[u8; EST_COUNTERS]; 4],
+    pub bits: u64,
+}
+
+impl<K: Hash + Eq, KH: KeyHasher<K>> TinyLFU<K, KH> {
+    pub(crate) fn verif_abs(&self) -> EstAbs {
+        let width = (self.ctr.verif_mask() + 1) as usize;
+        let mut c = [[0u8; EST_COUNTERS]; 4];
+        let mut r = 0;
+        while r < 4 {
+            let mut i = 0;
+            while i < EST_COUNTERS {
+                if i < width {
+                    c[r][i] = self.ctr.verif_row(r).verif_ctr(i);
+                }
+                i += 1;
+            }
+            r += 1;
+        }
+        EstAbs { w: self.w, samples: self.samples, width, c, bits: self.doorkeeper.verif_word(0) }
+    }
+
+    /// small arbitrary-but-valid estimator: sketch of `nbytes` bytes per row (2*nbytes counters, power of two),
+    /// one-word doorkeeper with `locs` probes
+    pub(crate) fn verif_small(rows: [[u8; 4]; 4], nbytes: usize, seeds: [u64; 4], bits: u64, locs: u64, samples: usize, w: usize, kh: KH) -> Self {
+        let mk = |r: usize| {
+            let mut row = CountMinRow::new(nbytes as u64);
+            let mut i = 0;
+            while i < 4 {
+                if i < nbytes {
+                    row.verif_set_byte(i, rows[r][i]);
+                }
+                i += 1;
+            }
+            row
+        };
+        let ctr = CountMinSketch::verif_from_parts([mk(0), mk(1), mk(2), mk(3)], seeds, (2 * nbytes - 1) as u64);
+        let mut words: Vec<u64> = alloc::vec![0u64; 1];
+        words[0] = bits;
+        TinyLFU { ctr, doorkeeper: Bloom::verif_small(words, locs), samples, w, kh, marker: Default::default() }
+    }
+
+    pub(crate) fn verif_doorkeeper(&self) -> &Bloom {
+        &self.doorkeeper
+    }
+}
+
+#[cfg(kani)]
+#[path = "/verif/kani/harness_tinylfu.rs"]
+mod harness;
